@@ -113,7 +113,8 @@ AggOK(c, r, ag, per) ==
   LET n == Len(per.rows)
       all == UNION {ToSet(Texts(per.rows[i].muts)) : i \in 1..n}
       cnt(t) == Cardinality({i \in 1..n : t \in ToSet(Texts(per.rows[i].muts))})
-      kept == {t \in all : cnt(t) * 1000 >= r.thr * n}
+      kept == {t \in all : IF Has(r, "thr9") THEN Floor9(cnt(t), n) >= r.thr9       \* a threshold given with nine decimals
+                                                ELSE cnt(t) * 1000 >= r.thr * n}
       lines == ag.agg
   IN /\ ag.err = "" /\ per.err = "" /\ ag.header = "mutation,frequency"
      /\ {lines[i].mut.text : i \in 1..Len(lines)} = kept
